@@ -193,6 +193,8 @@ def gen_random(rng, fam):
         if t == 0:
             for s, acts in sig_actions.items():
                 pre.append(f"sighandler {s} : " + " , ".join(acts))
+        if t == 0 and mine and fam != "burst" and rng.random() < 0.15:
+            pre.append("close0")        # the program runs with stdin closed: the event's descriptor is number 0
         for r in mine:
             pre += [f"rawreg r{r}", f"rawflags r{r}"]
             if rng.random() < 0.2:
